@@ -144,6 +144,17 @@ def run(seed, tier, driver):
             for flag in (0x40, 0xd0):
                 blk = (bytes([flag, code]) + (struct.pack('!H', ln) if flag & 0x10 else bytes([ln])) + v)
                 upd_cases.append((struct.pack('!H', 0) + struct.pack('!H', len(blk)) + blk, code & 1 == 0, False, 'attr_code_x_length'))
+    # flow specification NLRI (MP_REACH_NLRI / MP_UNREACH_NLRI, AFI 1 and 2, SAFI 133/134): every boundary value of the one- and
+    # two-octet NLRI length (0xf0 0xef is the largest short form; 0xfnnn the extended one), with nothing, too little, exactly
+    # enough and too much behind it
+    for afi, safi in ((1, 133), (2, 133), (1, 134)):
+        for ln in [bytes([x]) for x in (0, 1, 3, 0xef, 0xf0)] + [struct.pack('!H', x) for x in (0xf000, 0xf001, 0xf003, 0xf0ef, 0xf0f0, 0xf7ff,
+                                                                                           0xfffd, 0xfffe, 0xffff)]:
+            for tail in (b'', b'\x00', b'\x03\x81\x06', b'\x01\x18\x0a\x01\x02', b'\x03\x81\x06' * 5):
+                for code, pre in ((15, b''), (14, b'\x00\x00')):
+                    v = struct.pack('!HB', afi, safi) + pre + ln + tail
+                    blk = bytes([0x90, code]) + struct.pack('!H', len(v)) + v
+                    upd_cases.append((struct.pack('!H', 0) + struct.pack('!H', len(blk)) + blk, True, False, 'flowspec_nlri_length'))
     # (b) the repo's own valid encodings, mutated
     lits = astscan.harvest_byte_literals()
     bodies = []
